@@ -591,7 +591,7 @@ func Run(r *core.Run) {
 		}()
 	}
 	g := &gen{voc: voc, rng: rand.New(rand.NewSource(r.Seed))}
-	nSheets := r.Pick(320, 5000)
+	nSheets := r.Pick(280, 5000)
 	if v := os.Getenv("C12_N"); v != "" { // development only
 		fmt.Sscan(v, &nSheets)
 	}
@@ -642,7 +642,7 @@ func Run(r *core.Run) {
 	// CSS modules: a slice of the same cases through loader local-css behind a JavaScript entry
 	var local []*Case
 	for i, c := range cases {
-		if i%r.Pick(6, 4) == 0 && c.Family != "witness" && c.Family != "regress" {
+		if i%r.Pick(10, 4) == 0 && c.Family != "witness" && c.Family != "regress" {
 			local = append(local, c)
 		}
 	}
@@ -740,14 +740,19 @@ func replay(r *core.Run, st *stats) {
 // the failing environment is a browser that understands nesting (where the input's nested rule has the
 // specificity of :is(list), i.e. of its most specific member).  Computed from the scenario, not from the failure.
 func classify(c *Case, o *outcome, envIx int) string {
-	if envIx < 0 || !c.Mixed {
-		return ""
-	}
 	tg := targetByName(o.cfg.Target)
-	if subset([]string{"is"}, tg.feats) || !c.Envs[envIx].has("nesting") {
+	if envIx < 0 || subset([]string{"is"}, tg.feats) {
 		return ""
 	}
-	return "nesting-list-expansion-specificity"
+	// second class: `&` inside :not() under a parent list, expanded member by member:
+	// :not(:is(.a,.b)) becomes `:not(.a), :not(.b)` (a union where an intersection is meant)
+	if c.NotAmp {
+		return "nesting-list-expansion-in-not"
+	}
+	if c.Mixed && c.Envs[envIx].has("nesting") {
+		return "nesting-list-expansion-specificity"
+	}
+	return ""
 }
 
 func pickS(r *core.Run, q, t string) string {
